@@ -294,7 +294,7 @@ func buildPKI(c chainCase) (*pki, error) {
 	rsaSeen := false
 	keyFor := func(kt int, label uint64) crypto.Signer {
 		alt := false
-		if kt == kRSA || kt == kRSAPSS {
+		if isRSA(kt) {
 			alt = rsaSeen && label == 2 // the second root must not share the first root's RSA key
 			rsaSeen = true
 		}
@@ -499,7 +499,7 @@ func buildPKI(c chainCase) (*pki, error) {
 		for i, t := range below {
 			if t == linkTarget {
 				s := signerOf(i)
-				if s.kt != kRSA && s.kt != kP256 && s.kt != kP384 {
+				if s.kt != kRSA && s.kt != kRSA1024 && !isECDSA(s.kt) {
 					s.kt = kP256
 					s.key = newKey(kP256, gen.Mix(c.Seed, 77), false)
 				}
@@ -536,7 +536,7 @@ func buildPKI(c chainCase) (*pki, error) {
 				tw = tweak
 			case fSHA1Link:
 				a = x509.ECDSAWithSHA1
-				if s.kt == kRSA {
+				if isRSA(s.kt) {
 					a = x509.SHA1WithRSA
 				}
 				t.sha1Signed, t.faulty = true, !sha1Allowed
@@ -565,8 +565,8 @@ func buildPKI(c chainCase) (*pki, error) {
 		if c.Tight {
 			p.unrel.name = p.root.name // same name, other key
 		}
-		if p.unrel.kt == kRSA || p.unrel.kt == kRSAPSS {
-			p.unrel.key = rsaOther
+		if isRSA(p.unrel.kt) {
+			p.unrel.key = newKey(p.unrel.kt, 0, true) // the fixed RSA key the root does not use
 		}
 		if err := p.issue(p.unrel, 3, nil, nil, nil, alg(p.unrel)); err != nil {
 			return nil, err
@@ -891,6 +891,13 @@ func checkChain(c chainCase, r *h.Rec) error {
 		r.Label("chain-no-sm2")
 	}
 	r.NTIf(mixed || k >= 1 || c.Fault != fNone)
+	seenKT := map[int]bool{}
+	for _, kt := range kts {
+		if !seenKT[kt] {
+			seenKT[kt] = true
+			r.Label("chain-has-" + keyTypeNames[kt])
+		}
+	}
 
 	p, err := buildPKI(c)
 	if err != nil {
@@ -1131,8 +1138,8 @@ func allFaults() []int {
 	return out
 }
 
-var fastKTs = []int{kSM2, kSM2, kSM2, kP256, kEd25519, kP384}
-var allKTs = []int{kSM2, kSM2, kP256, kP384, kEd25519, kRSA, kRSAPSS}
+var fastKTs = []int{kSM2, kSM2, kSM2, kP256, kEd25519, kP384, kP224}
+var allKTs = []int{kSM2, kSM2, kP256, kP384, kEd25519, kRSA, kRSAPSS, kP224, kP521, kRSA1024, kRSA1024PSS}
 
 func TestC15_ChainSM2Root(t *testing.T) {
 	h.Prop(t, h.P{Name: "chain-sm2-root", Quick: 300, Thorough: 6000},
@@ -1148,5 +1155,7 @@ func TestC15_ChainMixed(t *testing.T) {
 
 func TestC15_ChainRSA(t *testing.T) {
 	h.Prop(t, h.P{Name: "chain-rsa", Quick: 120, Thorough: 2500},
-		func(rt *rapid.T) chainCase { return genChainCase(rt, []int{kRSA, kRSAPSS, kSM2}, allKTs, allFaults()) }, checkChain)
+		func(rt *rapid.T) chainCase {
+			return genChainCase(rt, []int{kRSA, kRSAPSS, kSM2, kP521, kRSA1024PSS, kP224}, allKTs, allFaults())
+		}, checkChain)
 }
